@@ -444,16 +444,55 @@ func c10flowYAML(doc m) string {
 	return buf.String()
 }
 
+// c10hang is returned (as the panic value) when a load did not return: 20 s of wall clock AND at least 10 s
+// of CPU burnt by this process meanwhile, for an input of a few kilobytes. The spinning goroutine is left
+// behind (it cannot be stopped); the case and the worker go on.
+type c10hang struct{ Wall, CPU time.Duration }
+
+func (h c10hang) String() string {
+	return fmt.Sprintf("LoadAndValidate did not return within %v (the process burnt %v of CPU meanwhile)", h.Wall.Round(time.Second), h.CPU.Round(time.Second))
+}
+
 func c10load(c *vlib.Case, data []byte) (hc *config.HookConfig, err error, panicked any) {
 	_ = os.WriteFile(filepath.Join(c.Dir, "input.bin"), data, 0o644)
-	defer func() {
-		if r := recover(); r != nil {
-			panicked = r
-		}
+	type out struct {
+		hc  *config.HookConfig
+		err error
+		p   any
+	}
+	ch := make(chan out, 1)
+	go func() {
+		var o out
+		defer func() {
+			if r := recover(); r != nil {
+				o.p = r
+			}
+			ch <- o
+		}()
+		o.hc = &config.HookConfig{}
+		o.err = o.hc.LoadAndValidate(data)
 	}()
-	hc = &config.HookConfig{}
-	err = hc.LoadAndValidate(data)
-	return hc, err, nil
+	start, cpu0 := time.Now(), processCPU()
+	tk := time.NewTicker(time.Second)
+	defer tk.Stop()
+	for {
+		select {
+		case o := <-ch:
+			return o.hc, o.err, o.p
+		case <-tk.C:
+			if w, u := time.Since(start), processCPU()-cpu0; w > 20*time.Second && u > 10*time.Second {
+				return nil, nil, c10hang{w, u}
+			}
+		}
+	}
+}
+
+// c10sig: "panic" or "neither-rejected-nor-loaded" (the load does not return).
+func c10sig(p any) string {
+	if _, ok := p.(c10hang); ok {
+		return "neither-rejected-nor-loaded"
+	}
+	return "panic"
 }
 
 func c10diff(got, want m) string {
@@ -499,7 +538,7 @@ func TestC10Valid(t *testing.T) {
 			hc, err, p := c10load(c, renderings[name])
 			res.Count("configs_loaded", 1)
 			if p != nil {
-				res.Violate("panic/valid-config", "%s rendering:\n%s\npanic: %v", name, renderings[name], p)
+				res.Violate(c10sig(p)+"/valid-config", "%s rendering:\n%s\n%v", name, renderings[name], p)
 				continue
 			}
 			if err != nil {
@@ -624,6 +663,15 @@ var c10faults = []c10fault{
 	}},
 	{"unknown-field/settings", func(d m) bool {
 		d["settings"] = m{"executionMinInterval": "1s", "executionBurst": 1.0, "burst": 2.0}
+		return true
+	}},
+	{"bad-crontab/step-zero", func(d m) bool {
+		s := c10first(d, "schedule")
+		if s == nil {
+			return false
+		}
+		c10anywhereSeq++
+		s["crontab"] = []string{"*/0 * * * *", "1-5/0 * * * * *", "* * 0/0 * *", "*/2,*/0 * * * *"}[c10anywhereSeq%4]
 		return true
 	}},
 	{"bad-crontab/words", func(d m) bool {
@@ -783,7 +831,7 @@ func TestC10Reject(t *testing.T) {
 		_, err, p := c10load(c, data)
 		res.Count("mutations_checked", 1)
 		if p != nil {
-			res.Violate("panic/"+f.Name, "config:\n%s\npanic: %v", data, p)
+			res.Violate(c10sig(p)+"/"+f.Name, "config:\n%s\n%v", data, p)
 		} else if err == nil {
 			sig := "accepted/" + f.Name
 			if where != "" {
@@ -873,7 +921,7 @@ func TestC10Fuzz(t *testing.T) {
 			res.Count("inputs_tried", 1)
 			switch {
 			case p != nil:
-				res.Violate("panic/arbitrary-bytes", "input (also in %s) made LoadAndValidate panic: %v\ninput: %q", filepath.Join(c.Dir, "input.bin"), p, string(data[:min(len(data), 600)]))
+				res.Violate(c10sig(p)+"/arbitrary-bytes", "input (also in %s): %v\ninput: %q", filepath.Join(c.Dir, "input.bin"), p, string(data[:min(len(data), 1200)]))
 				outcomes["panic"]++
 			case err != nil:
 				outcomes["rejected"]++
